@@ -18,7 +18,8 @@ instantiates it with the datatype model of C01.
   acquire t      thread t takes `accessLock` (the lock is free)
   merge t j      the holder of the lock, handling a request, merges the payload j into the cached value of this moment;
                  a refused payload leaves nothing behind (the section is left by `release`)
-  call t         `write_<p>(v)` for a request: only by the holder of the lock, with the value merged in THIS critical section
+  call t         `write_<p>(v)` for a request: only by the holder of the lock, with the value merged in THIS critical section,
+                 and once (the merge is used up)
   direct t       `write_<p>(v)` called by module code with a complete value of its own (not a request, nothing is merged)
   store t v      a wrapper run by t stores a new cached value (`announceUpdate` of the write wrapper with what the driver
                  returned, of the read wrapper with what the hardware says)
@@ -64,7 +65,7 @@ def mergeNow (merge : J → V → Option V) (s : CState J V) (j : J) : Option (J
 
 def doCall (s : CState J V) (t : Nat) : Option (CState J V) :=
   match s.merged with
-  | some (j, v) => some { s with calls := s.calls ++ [⟨t, j, s.cur, v⟩] }
+  | some (j, v) => some { s with merged := none, calls := s.calls ++ [⟨t, j, s.cur, v⟩] }
   | none => none
 
 /-- `none`: the action is not possible in this state under the lock discipline -/
